@@ -23,7 +23,7 @@ def sh(cmd, cwd=None, env=None, timeout=3600):
 ROUND = 1
 # seeds whose change lives in code that another property's check owns: those checks are run as well
 ALSO = {"C05-2": ["C10"], "C05-3": ["C03"], "C05-4": ["C02"], "C10-4": ["C12"], "C11-3": ["C02"], "C11-4": ["C12"],
-        "C01-3": ["C02"], "C16-2": ["C02"], "C05-5": ["C03"], "C11-5": ["C01"], "C11-6": ["C10"], "C16-5": ["C01"], "C11-7": ["C02"], "C11-10": ["C01"], "C14-9": ["C09"], "C16-10": ["C02"], "C11-12": ["C01"], "C03-12": ["C01"], "C05-11": ["C04"], "C03-13": ["C02"], "C03-14": ["C01"], "C05-14": ["C04"], "C16-14": ["C02"], "C05-15": ["C01"]}
+        "C01-3": ["C02"], "C16-2": ["C02"], "C05-5": ["C03"], "C11-5": ["C01"], "C11-6": ["C10"], "C16-5": ["C01"], "C11-7": ["C02"], "C11-10": ["C01"], "C14-9": ["C09"], "C16-10": ["C02"], "C11-12": ["C01"], "C03-12": ["C01"], "C05-11": ["C04"], "C03-13": ["C02"], "C03-14": ["C01"], "C05-14": ["C04"], "C16-14": ["C02"], "C05-15": ["C01"], "C03-15": ["C02", "C01"], "C16-15": ["C02"]}
 
 
 def source_dir(pid, k):
